@@ -15,6 +15,8 @@ PreOK(i) == Decodable(Pre(i))                      \* the pre-state can be read 
    (used to interpret the implementation's own reaction to its mask in C04) *)
 PostFull(s) == \A c \in AllCells : s.body_state[c[1]][c[2]] > 0
 
+EarlyEndM(m) == EndInvalidM(m) \/ EndCompletedM(m) \/ EndSurroundedM(m)
+
 (* ------------------------------------------------------------------ C04 *)
 C04(i) ==
   LET e == Ev(i) IN
@@ -63,28 +65,30 @@ C08(i) ==
   ELSE {}
 
 (* ------------------------------------------------------------------ C09 *)
+(* m == Move(s, a): the pre-state's snake, decoded once for all the rules of this line (an operator argument) *)
+C09Rules(e, s, a, t, isLast, m) ==
+  LET rb == RelBodyStateM(m, s, t)  rh == RelHeadM(m, s, t)  rl == RelLengthM(m, s, t)
+      rc == RelStepCount(s, a, t)  rf == RelFruitM(m, s, t) IN
+  { <<"C09.step_rel", rb /\ rh /\ rl /\ rc /\ rf>>,            \* = StepRel(s, a, t)
+    <<"C09.step_rel.body_state", rb>>,
+    <<"C09.step_rel.head_position", rh>>,
+    <<"C09.step_rel.length", rl>>,
+    <<"C09.step_rel.step_count", rc>>,
+    <<"C09.reward_eq", RewardExact(e, RewardM(m))>> }
+  \cup (IF m.legal /\ m.eats
+        THEN { <<"C09.nondet_choice_admissible", rf>> }
+        ELSE { <<"C09.step_rel.fruit_position", rf>> })
+  \cup
+  (* termination.  The documented reason "the snake is surrounded" is judged by its own clause; done_eq
+     covers every other case (invalid move, completed grid, time limit, and no LAST without a reason). *)
+  (IF EndSurroundedM(m) /\ ~EndCompletedM(m) /\ ~EndTime(s, TL)
+   THEN { <<"C09.done_eq.surrounded_is_last", isLast>> }
+   ELSE { <<"C09.done_eq", isLast = DoneM(m, s, TL)>> })
+
 C09(i) ==
-  LET e == Ev(i)  s == Pre(i)  a == e.a  t == e.s  isLast == e.ts.type = LAST IN
   IF RuleStep(i) THEN
     IF ~PreOK(i) THEN { <<"C09.step_rel", FALSE>> }
-    ELSE
-      LET rb == RelBodyState(s, a, t)  rh == RelHead(s, a, t)  rl == RelLength(s, a, t)
-          rc == RelStepCount(s, a, t)  rf == RelFruit(s, a, t) IN
-      { <<"C09.step_rel", rb /\ rh /\ rl /\ rc /\ rf>>,            \* = StepRel(s, a, t)
-        <<"C09.step_rel.body_state", rb>>,
-        <<"C09.step_rel.head_position", rh>>,
-        <<"C09.step_rel.length", rl>>,
-        <<"C09.step_rel.step_count", rc>>,
-        <<"C09.reward_eq", RewardExact(e, Reward(s, a))>> }
-      \cup (IF Legal(s, a) /\ Eats(s, a)
-            THEN { <<"C09.nondet_choice_admissible", rf>> }
-            ELSE { <<"C09.step_rel.fruit_position", rf>> })
-      \cup
-      (* termination.  The documented reason "the snake is surrounded" is judged by its own clause; done_eq
-         covers every other case (invalid move, completed grid, time limit, and no LAST without a reason). *)
-      (IF EndSurrounded(s, a) /\ ~EndCompleted(s, a) /\ ~EndTime(s, TL)
-       THEN { <<"C09.done_eq.surrounded_is_last", isLast>> }
-       ELSE { <<"C09.done_eq", isLast = Done(s, a)>> })
+    ELSE C09Rules(Ev(i), Pre(i), Ev(i).a, Ev(i).s, Ev(i).ts.type = LAST, Move(Pre(i), Ev(i).a))
   ELSE {}
 
 (* ------------------------------------------------------------------ C10 *)
@@ -103,8 +107,7 @@ C10(i) ==
 (* ------------------------------------------------------------------ C11 *)
 C11(i) ==
   IF RuleStep(i) /\ PreOK(i)
-  THEN C11Group(i, TL, Ev(i).s.step_count,
-                EndInvalid(Pre(i), Ev(i).a) \/ EndCompleted(Pre(i), Ev(i).a) \/ EndSurrounded(Pre(i), Ev(i).a))
+  THEN C11Group(i, TL, Ev(i).s.step_count, EarlyEndM(Move(Pre(i), Ev(i).a)))
   ELSE {}
 
 (* ------------------------------------------------------------------ C12 *)
